@@ -121,7 +121,11 @@ def validator_shapes() -> list:
         for vs in vsets:
             a = T.Annotated[(meta,) + vs]
             _VSHAPES.extend([a, list[a], tuple[a, ...], set[a] if meta is not gen.U0 else list[a], dict[str, a], tuple[int, a],
-                             T.Union[int, a], T.Union[a, list[int]], A.Iterable[a], dict[str, list[a]]])
+                             T.Union[int, a], T.Union[a, list[int]], A.Iterable[a], dict[str, list[a]],
+                             # first member of an all-subscripted union BELOW a container or a tuple position (the other member
+                             # order is an EQUAL hint for typing and beartype's caches: whichever spelling is seen first is compiled)
+                             list[T.Union[a, list[int]]], tuple[int, T.Union[a, list[int]]],
+                             tuple[T.Union[list[str], set[str]], T.Union[a, list[int]]], dict[str, T.Union[a, dict[str, int]]]])
     return _VSHAPES
 
 
